@@ -180,6 +180,15 @@ def run_c11(tier, seed):
                             % (sub, "\n" * (3 if sub == "pa" else 0), sub, fault if bad else ""))
             inputs.append(("module-same-name-%s" % ("first" if which == 0 else "second"),
                            'version: "3"\nmod s%dw%d.pa.types;\nmod s%dw%d.pb.types;\nstruct T { a @0: u8, }\n' % (k, which, k, which)))
+    # parameters and literals of the wrong KIND in every place that takes one (numbers, strings, arrays, identifiers)
+    LITS = ['1', '1.5', '-3', '"V"', '["V"]', '[1, 2]', 'abc', '[]', '[["x"]]', '""']
+    for lit in LITS:
+        for tmpl in ('struct Odd { q @0: u8 | unit(%s), }', 'struct Odd { q @0: u8 | range(%s, 5), }', 'struct Odd { q @0: u8 | range(0, %s), }',
+                     'struct Odd { q @%s: u8, }', 'enum Odd { A = %s, }', 'struct Odd { q @0: [u8, %s], }',
+                     'struct S { a @0: u8, }\nservice Svc @%s { method m(S) @0 returns S, }',
+                     'struct S { a @0: u8, }\nservice Svc @1 { method m(S) @%s returns S, }',
+                     'struct Odd { q @0: u8 | unit(%s, %s), }', 'struct Odd { q @0: u8 | unit(%s) | unit(%s), }'):
+            inputs.append(("literal-kind", 'version: "3"\n' + tmpl.replace("%s", lit) + "\n"))
     # type expressions nested far beyond any recursion limit, closed and unclosed
     for n in (100, 400, 1500, 6000):
         inputs.append(("deep-nesting", 'version: "3"\nstruct A { a @0: ' + "[" * n + "u8" + ", 2]" * n + ", }\n"))
